@@ -14,6 +14,8 @@ var noticeTemplates = []string{
 	"Copyright (c) 2020 Foo Bar", "copyright 1999, x", "(c) Copyright [yyyy] name of owner", "2006-01-27", "2006-jan-27",
 	"© Copyright 2011 x", "Copyright (c) [dates of first publication] Y", "  Copyright 2008-2010 The Authors. All rights reserved.",
 	"// Copyright 2014 Google Inc.", " * COPYRIGHT (C) 1999 someone", "1999-DEC-31", "# copyright [yyyy] [name of copyright owner]",
+	// lead-ins of up to five CHARACTERS that take more than five bytes
+	"版权所有 Copyright 2020 Foo", "Авт. copyright (c) 2019 Иван", "(цц) Copyright 2001 Y", "©®™ COPYRIGHT 1999 Z", "§§§§§Copyright 2003, x", "日本語の copyright [yyyy] owner",
 }
 
 // usableNotices: templates the running tokenizer itself treats as an ignorable
@@ -24,10 +26,19 @@ func usableNotices() []string {
 		toks, ml := classifier.VerifTokenize([]byte(t+"\n"), true)
 		if len(toks) == 0 && len(ml) == 1 {
 			out = append(out, t)
+		} else if !strings.Contains(t, "[") {
+			// ("[yyyy]" never reaches the expressions as written: "[" does not start a word for the tokenizer, so the
+			// bracketed templates are not notices for the code as it is - they stay filtered, as before)
+			notNotices = append(notNotices, t)
 		}
 	}
 	return out
 }
+
+// notNotices: listed templates that the running tokenizer does not treat as a notice line when they stand alone.
+// Every template of the list is a notice by the expressions the property refers to (checked by hand, and accepted
+// by the unchanged code), so an entry here is reported as a violation.
+var notNotices []string
 
 // firstWord: the first blank-separated field that starts a word for the tokenizer
 // (letter, digit, & or '('), i.e. skipping comment decoration.
@@ -110,6 +121,9 @@ func cmdC06(seed uint64, tier, outdir string) {
 			}
 			vw.printf("VIOL %s %s on %s: %s\n", cls, name, in, verdict)
 		}
+	}
+	for _, t := range notNotices {
+		emit("notice-template", "alone", []byte(t), "the line is a copyright notice / date by the ignorable-text expressions but is tokenized as text: "+t, "", 1)
 	}
 	rev := map[string][]string{}
 	for k, v := range iw {
